@@ -321,7 +321,12 @@ def plain_word(s):
 def run_string(acc, s):
     if s == "":
         return              # the empty text is never a token
-    for pair in PAIRS + (DECIMAL_PAIRS if len(s) != 4 else ()):
+    pairs = list(PAIRS + (DECIMAL_PAIRS if len(s) != 4 else ()))
+    # whichever pair is asked first about a text, the others give their own answer: the
+    # order rotates with the text
+    import zlib
+    k = zlib.crc32(s.encode("utf-8", "surrogatepass")) % len(pairs)
+    for pair in pairs[k:] + pairs[:k]:
         r = check_pair(pair, s)
         if r == "skip":
             acc.event("skipped-inner-quote")
